@@ -6,6 +6,14 @@ VC = ("contract-based deductive verification: verification conditions generated 
       "discharged by z3 (cvc5 for z3-unknowns); ")
 
 PROPS = {
+    "C09": {
+        "units": [wire_v3.units_rx], "level": "other", "design_ref": "7.9",
+        "technique": VC + "V3MPM.decode and the USM incoming path executed on an ARBITRARY well-formed SNMPv3 message (all leaves "
+                     "symbolic: flags, user, engine, digest, payload plain or encrypted); postcondition: a normal return implies the "
+                     "auth flag, the user name and a digest valid over the whole message",
+        "trusted_base": ["cryptographic assumption: HMAC is an uninterpreted function; a digest valid under the localised key cannot be "
+                         "produced without the key", "x690 decode/serialisation contract on the term algebra"],
+    },
     "C10": {
         "units": [wire_v3.units_emit, wire_v3.units_rx], "level": "other", "design_ref": "7.10",
         "technique": VC + "V3MPM.encode and the USM request path compared with the RFC 3412/3414 term (flags, parameters, digest over "
@@ -34,13 +42,13 @@ PROPS = {
                          "importlib/pkgutil: a plug-in namespace yields the modules under /repo/src/<namespace>"],
     },
     "C06": {
-        "units": [wire_community.units_rx], "level": "other", "design_ref": "7.6",
+        "units": [wire_community.units_rx, wire_v3.units_rx, types_c17.units_table_c06], "level": "other", "design_ref": "7.6",
         "technique": VC + "V1MPM/V2CMPM.decode and PDU.decode_raw executed on a well-formed RFC message with symbolic leaves "
                      "and arbitrary definite length forms; registration constants as a contract on data",
         "trusted_base": ["x690 decode contract on the TLV term algebra (class registered for the identifier octet)"],
     },
     "C08": {
-        "units": [wire_community.units_rx, seam.units], "level": "other", "design_ref": "7.8",
+        "units": [wire_community.units_rx, seam.units, wire_v3.units_rx], "level": "other", "design_ref": "7.8",
         "technique": VC + "PDU.decode_raw error branch, ErrorResponse.construct/__init__ and the IDENTIFIER table executed for every "
                      "status and index (symbolic integers); _send forces the lazy value",
         "trusted_base": ["x690 decode contract on the TLV term algebra"],
